@@ -258,6 +258,7 @@ class Report:
         self.tier = tier
         self.t0 = time.time()
         self.known = known_findings(prop)
+        self.rule_is_full_run = True
         self.known_hit: dict[str, dict] = {}
         self.violations: list[dict] = []
         self.corr_breaks: list[dict] = []
@@ -298,11 +299,19 @@ class Report:
 
     # -- finish -----------------------------------------------------------
     def finish(self, rule: str, level_note: list[str] | None = None, exhaustive: bool = False) -> int:
+        if rule.startswith("replay"):
+            self.rule_is_full_run = False
         REPLAYS.mkdir(exist_ok=True)
         EVIDENCE.mkdir(exist_ok=True)
         rc = 0
         for region, hit in self.known_hit.items():
             print(f"KNOWN-FINDING: property={self.prop} {region}: {self.known[region]['what']}")
+        if self.rule_is_full_run:
+            # every listed finding of this property gets its line; the ones this run's sample did not reach say so
+            for region, f in self.known.items():
+                if region not in self.known_hit:
+                    print(f"KNOWN-FINDING: property={self.prop} {region}: {f['what']} [listed; not reached by this "
+                          f"run's cases (seed {seed()}, tier {self.tier})]")
         proof_broken = bool(self.audit.get("failures")) or (
             self.audit and self.audit.get("discharged") != self.audit.get("obligations")
         )
